@@ -420,6 +420,10 @@ pub fn g_syndrome_pattern() -> BoxedStrategy<RsCase> {
                     for e in 0..v {
                         let j = if e == 0 {
                             [n, n, n + 1, 254, n + pick(raws[196], 255 - n)][pick(raws[195], 5)].min(254)
+                        } else if e == 1 && raws[194] & 1 == 1 {
+                            // together with the location alpha^0 (last codeword of the block): the zeros
+                            // of the locator are then not found in ascending order of the location
+                            0
                         } else {
                             pick(raws[(e + 20) % 200], 255)
                         };
@@ -524,6 +528,23 @@ pub fn g_syndrome_pattern() -> BoxedStrategy<RsCase> {
             if let Some(delta) = gf::solve(&a, &target) {
                 for (p, d) in pos.iter().zip(delta.iter()) {
                     received[idx[*p]] ^= *d;
+                }
+            }
+            // one time in three the blocks before `b` carry one correctable error each (last codeword
+            // of the block = location alpha^0, first codeword, or anywhere): whatever a decoder keeps
+            // from one block to the next is then not in its initial state when block `b` is reached
+            if b > 0 && vals[79] % 3 == 0 {
+                for b2 in 0..b {
+                    if b2 > 0 && vals[(70 + b2) % 80] & 1 == 1 {
+                        continue;
+                    }
+                    let idx2 = gf::block_indices(sym, b2);
+                    let p = match vals[(60 + b2) % 80] % 3 {
+                        0 => *idx2.last().unwrap(),
+                        1 => idx2[0],
+                        _ => idx2[pick(jsel.rotate_left(b2 as u32 + 3), idx2.len())],
+                    };
+                    received[p] ^= nz(40 + b2);
                 }
             }
             RsCase { sym: symi, original, received, nearest: None, stratum: "syndrome-pattern" }
